@@ -262,12 +262,18 @@ func (cs *Contracts) loadContractFile(path, pkgPath string, imports map[string]s
 			lastClause = nil
 		case head == "ghost" && len(fields) >= 4 && fields[1] == "var":
 			d := &GhostDecl{Name: fields[2], TypeTxt: strings.Join(fields[3:], " "), PkgPath: pkgPath, File: path, Line: i + 1}
+			if old, dup := cs.GhostVars[d.Name]; dup {
+				return fmt.Errorf("%s:%d: ghost variable %q already declared at %s:%d (ghost variable names are global)", path, i+1, d.Name, old.File, old.Line)
+			}
 			cs.GhostVars[fields[2]] = d
 			cur, lastClause = nil, nil
 		case head == "ghost" && len(fields) >= 4 && fields[1] == "field":
 			on := fields[2]
 			j := strings.LastIndex(on, ".")
 			d := &GhostDecl{Name: on[j+1:], Owner: on[:j], TypeTxt: strings.Join(fields[3:], " "), PkgPath: pkgPath, File: path, Line: i + 1}
+			if old, dup := cs.GhostFields[d.Name]; dup {
+				return fmt.Errorf("%s:%d: ghost field name %q already declared at %s:%d (ghost field names are global)", path, i+1, d.Name, old.File, old.Line)
+			}
 			cs.GhostFields[d.Name] = d
 			cur, lastClause = nil, nil
 		case head == "specfunc" || head == "pred":
